@@ -203,6 +203,71 @@ instance (lay : Layout) : Decidable lay.WF := by unfold Layout.WF pageFits; infe
 
 def encToastRel (lay : Layout) : Bytes := encHeap (lay.map fun pg => Block.page (toastPage pg)) []
 
+/-! ### pages as PostgreSQL really leaves them: line pointers that are not LP_NORMAL
+
+After deletes + VACUUM (and pruning / index-scan kills) the line pointer array of a page is not a dense run of NORMAL
+pointers: freed slots stay as LP_UNUSED (all-zero) wherever they were — PostgreSQL truncates only TRAILING unused
+pointers and never moves used ones —, killed items are LP_DEAD (without storage after pruning, with storage after
+`ItemIdMarkDead`), and LP_REDIRECT entries carry a pointer NUMBER in lp_off.  None of them carries a tuple: the rows
+of the relation (`Layout.liveRows`, `Stores`, `stats`) are those behind NORMAL pointers, exactly as without holes. -/
+
+/-- one non-NORMAL line pointer.  `flags`: 0 LP_UNUSED, 2 LP_REDIRECT, 3 LP_DEAD.  `off`: the lp_off field of a pointer
+without storage (REDIRECT: the target pointer number; UNUSED / DEAD: 0).  `storage`: the bytes of a dead item still on the
+page (LP_DEAD with storage: lp_off / lp_len then name these bytes). -/
+structure Hole where
+  flags : Nat
+  off : Nat := 0
+  storage : Bytes := []
+deriving Repr, Inhabited
+
+def Hole.unused : Hole := { flags := 0 }
+def Hole.dead : Hole := { flags := 3 }
+def Hole.redirect (to : Nat) : Hole := { flags := 2, off := to }
+/-- LP_DEAD with storage: the tuple `e` is still on the page -/
+def Hole.deadStored (e : Entry) : Hole := { flags := 3, storage := encTuple e.tuple }
+
+/-- the holes of one page with `n` entries: element `i < n` = the pointers in front of entry `i`'s pointer, element `n` =
+those behind the last entry's pointer (missing elements = none) -/
+abbrev Holes := List (List Hole)
+
+def holesAt (hs : Holes) (i : Nat) : List Hole := hs.getD i []
+
+/-- the storage of the holes in front of entry `i`: it lies in front of entry `i`'s tuple -/
+def junkAt (hs : Holes) (i : Nat) : Bytes := (holesAt hs i).flatMap (·.storage)
+
+def holeCount (hs : Holes) (n : Nat) : Nat := ((List.range (n + 1)).map fun i => (holesAt hs i).length).sum
+
+/-- the pointers of a group of holes whose storage starts at page offset `start` -/
+def holeLPs : Nat → List Hole → List LP
+  | _, [] => []
+  | start, h :: hs =>
+    (if h.storage.isEmpty then LP.other h.off h.flags 0 else LP.other start h.flags h.storage.length) ::
+      holeLPs (start + h.storage.length) hs
+
+/-- a page holding the given tuples behind NORMAL pointers (in order, storage packed towards the end of the page) with
+non-NORMAL pointers before, between and after them; the storage of the trailing group lies behind the last tuple -/
+def toastPageH (es : List Entry) (hs : Holes) : Page :=
+  let n := es.length
+  let slots : List (Bytes × Tuple) := es.zipIdx.map fun (e, i) => (junkAt hs i, e.tuple)
+  let tail := junkAt hs n
+  let lower := 24 + 4 * (n + holeCount hs n)
+  let upper := 8192 - ((slots.map slotLen).sum + tail.length)
+  let startOf (i : Nat) : Nat := upper + ((slots.take i).map slotLen).sum
+  { hdr0 := zeros 12, special := 8192, version := 4, prune := 0,
+    lps := ((List.range n).flatMap fun i => holeLPs (startOf i) (holesAt hs i) ++ [.normal i]) ++
+             holeLPs (startOf n) (holesAt hs n),
+    free := zeros (upper - lower), slots, tail }
+
+def pageFitsH (es : List Entry) (hs : Holes) : Prop :=
+  24 + 4 * (es.length + holeCount hs es.length) + (es.map fun e => e.len).sum +
+    ((List.range (es.length + 1)).map fun i => (junkAt hs i).length).sum ≤ 8192
+
+instance (es : List Entry) (hs : Holes) : Decidable (pageFitsH es hs) := by unfold pageFitsH; infer_instance
+
+/-- `holes`: one `Holes` per page (missing = no holes on that page) -/
+def encToastRelH (lay : Layout) (holes : List Holes) : Bytes :=
+  encHeap (lay.zipIdx.map fun (pg, i) => Block.page (toastPageH pg (holes.getD i []))) []
+
 /-- the live rows, in physical order -/
 def Layout.liveRows (lay : Layout) : List Row := (lay.flatten.filter (·.live)).map (·.row)
 
